@@ -27,6 +27,7 @@ TECHNIQUE += '; operand correspondence (operand fields read from <Class>._parse 
 LEVEL_TEXT += ' Added clauses: literal operands and the generated configuration are read back from the emitted text; for every node class the generator walks the same operand fields the model parses (a based rule: base expression followed by its own).'
 TECHNIQUE += '; named-value agreement (naming context managers clear last_node before their block, every emitted wrapper is a frame or delegates to a primitive, leaf value = last_node, values returned from discarded frames)'
 LEVEL_TEXT += ' Added clause: a name binds the value of its own expression in generated code (not a stale last node, not the last element of a group); the residual `x:&e` difference is a known finding.'
+TECHNIQUE += '; frames of the generated-only context managers (= C05.R3)'
 LEVEL_NOTE = ('Trusted: repr() escapes every non-printable character; str.splitlines() breaks at \\n \\r \\v \\f \\x1c \\x1d \\x1e \\x85 '
               '\\u2028 \\u2029; str.expandtabs() rewrites TAB.')
 EXPLANATION = ('Static analysis of /repo sources, TatSu not imported. walk_* methods of PythonParserGenerator and _parse methods '
